@@ -185,6 +185,31 @@ fn check_relative_to(p: &Synth, local: i128, rng: &mut Rng, fails: &mut Vec<Fail
     }
 }
 
+/// a property bag without time fields denotes MIDNIGHT of its date (C13 observe-at from_partial_with_provider), also when
+/// the zone skips or repeats midnight: synthetic zones whose transition removes / repeats the hour around local midnight
+pub fn check_partial_midnight(fails: &mut Vec<Failure>) {
+    use temporal_rs::partial::{PartialDate, PartialZonedDateTime};
+    // 2018-11-04T00:00 local = 1541289600 s; the zone moves from -03:00 to -02:00 at 03:00Z (local midnight skipped),
+    // or from -02:00 to -03:00 at 02:00Z (local 23:00..24:00 of the 3rd repeated), or has no transition
+    let midnight_local: i128 = 1_541_289_600 * 1_000_000_000;
+    for (initial, transitions) in [(-10800i64, vec![(1_541_300_400i64, -7200i64)]), (-7200, vec![(1_541_296_800, -10800)]), (3600, vec![])] {
+        let p = Synth { initial, transitions };
+        for dis in DIS {
+            let mut bag = PartialZonedDateTime::default();
+            bag.date = PartialDate::new().with_year(Some(2018)).with_month(Some(11)).with_day(Some(4));
+            bag.timezone = Some(TimeZone::IanaIdentifier("Synthetic/Zone".into()));
+            let want = expected(&p, midnight_local, dis);
+            let input = format!("from_partial {{year: 2018, month: 11, day: 4}} (no time fields) disambiguation={dis:?} initial={} transitions={:?}", p.initial, p.transitions);
+            let r = catch_unwind(std::panic::AssertUnwindSafe(|| ZonedDateTime::from_partial_with_provider(bag, None, Some(dis), None, &p).map(|z| z.epoch_nanoseconds().as_i128())));
+            match r {
+                Err(_) => fails.push(Failure { what: "from_partial without time: panicked".into(), input, expected: format!("{want:?}"), observed: "panic".into() }),
+                Ok(Ok(got)) => if Some(got) != want { fails.push(Failure { what: "from_partial without time: not midnight".into(), input, expected: format!("{want:?}"), observed: format!("{got}") }); },
+                Ok(Err(e)) => if want.is_some() { fails.push(Failure { what: "from_partial without time: error".into(), input, expected: format!("{want:?}"), observed: format!("{e:?}") }); },
+            }
+        }
+    }
+}
+
 const DIS: [Disambiguation; 4] = [Disambiguation::Compatible, Disambiguation::Earlier, Disambiguation::Later, Disambiguation::Reject];
 
 /// PlainDate -> ZonedDateTime at the edges of the range: a date-time outside the limits is a RangeError, never a value
@@ -216,6 +241,8 @@ pub fn search_edges(fails: &mut Vec<Failure>) {
 }
 
 pub fn search(rng: &mut Rng, budget: u64, fails: &mut Vec<Failure>) {
+    check_partial_midnight(fails);
+    if fails.len() >= 5 { return; }
     search_gap(rng, budget, fails, 3 * 3600);
 }
 
